@@ -100,6 +100,10 @@ func newConnEnv() (*connEnv, error) {
 	}
 	// /cx/m0/{a}/y hangs below nodes the live X routes own
 	svcY.Methods = append(svcY.Methods, vschema.Method{Name: "Deep", In: "vf.Req", Out: "vf.Rsp", Rule: getRule("/cx/m0/{a}/y")})
+	// verbs bound on paths that live routes (the local baseline, X) only pass
+	// through: nodes that exist in the published trie without binding anything
+	svcY.Methods = append(svcY.Methods, vschema.Method{Name: "PfxLocal", In: "vf.Req", Out: "vf.Rsp", Rule: getRule("/cl/base")})
+	svcY.Methods = append(svcY.Methods, vschema.Method{Name: "PfxConn", In: "vf.Req", Out: "vf.Rsp", Rule: getRule("/cx/m0")})
 	svcY.Methods = append(svcY.Methods, vschema.Method{Name: "Bad", In: "vf.Req", Out: "vf.Rsp", Rule: getRule("/cy/bad/{no_such_field}")})
 	fy.Services = []vschema.Service{svcY}
 	fdY, err := fy.Build()
@@ -121,7 +125,7 @@ func newConnEnv() (*connEnv, error) {
 		if bad {
 			// the newer revision: one more route on the first method, and a
 			// last method that larking must refuse
-			svcZ.Methods[0].Rule = &annotations.HttpRule{Pattern: &annotations.HttpRule_Get{Get: "/cz/m0/{a}"}, AdditionalBindings: []*annotations.HttpRule{getRule("/cz/v2/m0/{a}")}}
+			svcZ.Methods[0].Rule = &annotations.HttpRule{Pattern: &annotations.HttpRule_Get{Get: "/cz/m0/{a}"}, AdditionalBindings: []*annotations.HttpRule{getRule("/cz/v2/m0/{a}"), getRule("/cz/m1")}}
 			last.Rule = getRule("/cz/last/{no_such_field}")
 		}
 		svcZ.Methods = append(svcZ.Methods, last)
@@ -202,7 +206,7 @@ var connModel = porcupine.Model{
 	},
 }
 
-var refusedProbes, refreshProbes int64
+var refusedProbes, refreshProbes, prefixProbes int64
 
 var longQuery = func() string {
 	var sb strings.Builder
@@ -324,12 +328,30 @@ func runConnHistory(r *mon.Run, e *connEnv, rng *rand.Rand, readers, writers int
 					if r2 := wire.Serve(mux, wire.BodyRequest("GET", "/cz/v2/m0/v", "", nil, nil)); r2.Code != http.StatusNotFound {
 						viol("route-of-refused-registration-visible", fmt.Sprintf("GET /cz/v2/m0/v (declared only by the refused revision) answered %d", r2.Code))
 					}
+					atomic.AddInt64(&prefixProbes, 1)
+					if r2 := wire.Serve(mux, wire.BodyRequest("GET", "/cz/m1", "", nil, nil)); r2.Code != http.StatusNotFound {
+						viol("route-of-refused-registration-visible:prefix-of-existing-route", fmt.Sprintf("GET /cz/m1 (bound only by the refused revision, on a node the registered revision's /cz/m1/{a} passes through) answered %d", r2.Code))
+					}
 					continue
 				}
 				if lr.Intn(5) == 0 {
 					// routes of the back-end whose registration is refused
 					// must never be visible, not even while it is being refused
-					path := []string{"/cy/m0/v", "/cy/m5/v", "/cx/m0/v/y", "/vf.cy.Y/Me0"}[lr.Intn(4)]
+					path := []string{"/cy/m0/v", "/cy/m5/v", "/cx/m0/v/y", "/vf.cy.Y/Me0", "/cl/base", "/cx/m0"}[lr.Intn(6)]
+					if path == "/cl/base" || path == "/cx/m0" {
+						// bound only by the refused back-end, on a node that
+						// routes registered by others pass through
+						atomic.AddInt64(&prefixProbes, 1)
+						resp := wire.Serve(mux, wire.BodyRequest("GET", path, "", nil, nil))
+						if resp.Panic != nil {
+							viol(resp.Panic.Key(), "request panicked: "+resp.Panic.Value)
+							return
+						}
+						if resp.Code != http.StatusNotFound {
+							viol("route-of-refused-registration-visible:prefix-of-existing-route", fmt.Sprintf("GET %s answered %d although the only registration that binds a verb there was refused (other services' routes merely pass through that path; body %.80q)", path, resp.Code, resp.Body))
+						}
+						continue
+					}
 					verb := "GET"
 					if strings.HasPrefix(path, "/vf.") {
 						verb = "POST"
@@ -541,6 +563,7 @@ func runConnHistory(r *mon.Run, e *connEnv, rng *rand.Rand, readers, writers int
 
 	r.Count("probes_of_refused_routes", int(atomic.SwapInt64(&refusedProbes, 0)))
 	r.Count("probes_of_service_with_refused_refresh", int(atomic.SwapInt64(&refreshProbes, 0)))
+	r.Count("conn_lane_probes_of_refused_verbs_on_prefixes_of_live_routes", int(atomic.SwapInt64(&prefixProbes, 0)))
 	for _, path := range []string{"/cz/m0/v", "/cz/last/v"} {
 		if resp := wire.Serve(mux, wire.BodyRequest("GET", path, "", nil, nil)); resp.Code != http.StatusOK {
 			viol("registered-service-disturbed-by-refused-refresh", fmt.Sprintf("GET %s answers %d after the run although its connection is still registered", path, resp.Code))
@@ -885,6 +908,7 @@ func connLane(r *mon.Run) {
 	for k := 0; k < r.Pick(3, 30); k++ {
 		gatedRegistration(r, e, k)
 	}
+	cancelledWaiterLane(r, e)
 	lastProviderChurn(r, r.Pick(40, 800))
 	rng := r.Rand("c12-conn")
 	n := r.Pick(6, 300)
